@@ -85,9 +85,12 @@ func twinStream(meta *common.Meta, tier string, seed int64, outDir string, s1, s
 		var err error
 		for attempt := 0; attempt < 2; attempt++ { // a wall-clock limit hit under machine load is retried once, then only noted
 			out, code, err = common.Run(cliTimeout(tier), ws, common.GoEnv(), filepath.Join(common.BinDir(), bin), full...)
-			if err == nil {
+			if err == nil && code != -1 {
 				break
 			}
+		}
+		if err == nil && code == -1 {
+			err = fmt.Errorf("killed by a signal (not by this harness): no observation")
 		}
 		if err != nil {
 			meta.Notes = append(meta.Notes, fmt.Sprintf("twin-package stage: %s %v did not finish within the wall-clock limit (not a verdict): %v", bin, args, err))
